@@ -525,7 +525,9 @@ func c09RawIsOneElement(c *core.Ctx) {
 					if b, isB := y.(*ssa.BinOp); isB && (b.Op == token.EQL || b.Op == token.NEQ) {
 						// length read == something derived from a Length()/Pos()/len
 						for _, side := range [][2]ssa.Value{{b.X, b.Y}, {b.Y, b.X}} {
-							if e, isE := core.StripConv(side[0]).(*ssa.Extract); isE && isCallTo(e.Tuple, core.CalleeID{Pkg: "std/encoding", Name: "ReadTLNum"}) {
+							// (component 0 is the number; component 1 is the error, and
+							// `err != nil` is not the comparison meant here)
+							if e, isE := core.StripConv(side[0]).(*ssa.Extract); isE && e.Index == 0 && isCallTo(e.Tuple, core.CalleeID{Pkg: "std/encoding", Name: "ReadTLNum"}) && !core.IsNilConst(side[1]) {
 								cmp = true
 							}
 						}
@@ -603,6 +605,52 @@ func c09ClassifiedAddressIsSet(c *core.Ctx) {
 		})
 	}
 	c.Floor("R9.3", "IsLoopback classifications in fw/face", n, 1) // the constructors may share one classifying helper
+	// ---- R9.7 a face id names one face for the life of the process. Packets queued for the
+	// forwarding threads carry the id of their arrival face and are classified (local /
+	// non-local) when they are processed: if the id of a removed non-local face is handed out
+	// again, its queued /localhost packets are attributed to the new — possibly local —
+	// face. The id counter of the face table only grows: outside the package's init it is
+	// only read or advanced by a positive constant.
+	{
+		nUse := 0
+		for _, fn := range p.FuncsIn(core.ModPath + "/fw/face") {
+			if strings.HasSuffix(p.File(fn.Pos()), "_test.go") {
+				continue
+			}
+			core.Instrs(fn, func(in ssa.Instruction) {
+				ci, ok := in.(ssa.CallInstruction)
+				if !ok || len(ci.Common().Args) == 0 {
+					return
+				}
+				cal := ci.Common().StaticCallee()
+				if cal == nil || cal.Pkg == nil || cal.Pkg.Pkg.Path() != "sync/atomic" {
+					return
+				}
+				fa, isFA := ci.Common().Args[0].(*ssa.FieldAddr)
+				if !isFA {
+					return
+				}
+				tn, fld := core.FieldAddrName(fa)
+				if tn != "Table" || !strings.Contains(strings.ToLower(fld), "faceid") {
+					return
+				}
+				nUse++
+				okUse := false
+				switch cal.Name() {
+				case "Load":
+					okUse = true
+				case "Add":
+					if k, isC := core.ConstInt(ci.Common().Args[1]); isC && k > 0 {
+						okUse = true
+					}
+				case "Store":
+					okUse = fn.Name() == "init" || strings.HasPrefix(fn.Name(), "init#")
+				}
+				c.Decide(okUse, "R9.7", fmt.Sprintf("face-id-never-reused:%s:%s", core.FuncName(fn), cal.Name()), c.Pos(in), "the face id counter is read or advanced", core.FuncName(fn)+" rewrites the face id counter ("+cal.Name()+"): an id that was handed out can be handed out again, and packets still queued with the id of the removed face — /localhost Data from a non-local face among them — are attributed to the face that got the id next, classified by ITS scope, cached and served to local applications")
+			})
+		}
+		c.Floor("R9.7", "uses of the face id counter", nUse, 2)
+	}
 	// ---- R9.6 the management thread owns no FIB entry behind the RIB's back. The RIB rewrites
 	// the whole FIB entry of every name it has a route for (SetNextHopsEnc / ClearNextHopsEnc
 	// in RibEntry.updateNexthopsEnc): a next hop that the management thread writes into the
